@@ -64,6 +64,64 @@ fn shape_space(ctx: &Ctx, rows: usize, cols: usize) {
     );
 }
 
+/// Sparse<f64> with columns (for transpose_multiply) or rows (for multiply) of very different scale: A_ij = k_ij 2^(e_j) (resp.
+/// 2^(e_i)) with small integers k_ij, vectors of small integers. Every component of the product is then a small integer times ONE
+/// power of two - exact in f64 whatever the other components are - and must come out bit for bit. A product that accumulates
+/// across components (one running sum over all stored entries with differences taken per column) absorbs the small columns.
+fn scaled_space(ctx: &Ctx, rows: usize, cols: usize) {
+    let len = 1u64 << (rows * cols);
+    let exps: [i32; 6] = [40, -17, 0, 25, -40, 52];
+    ctx.lattice(
+        &format!("Sparse<f64> {}x{} with columns / rows scaled by 2^{{40,-17,0,25,-40,52}}: every sparsity pattern x 2 triplet orders: transpose_multiply, multiply, transpose().multiply bit for bit", rows, cols),
+        len,
+        |mask| format!("{}x{} cells={:?}", rows, cols, pattern_cells(rows, cols, mask)),
+        |mask, acc| {
+            let cells = pattern_cells(rows, cols, mask);
+            if cells.len() >= 2 {
+                acc.nontriv("scaled sparse product");
+            }
+            let k = |i: usize, j: usize| ((i * 5 + j * 3) % 7) as i64 - 3 + if (i * 5 + j * 3) % 7 == 3 { 4 } else { 0 };
+            for rev in [false, true] {
+                judge(acc, mask, || format!("scaled {}x{} cells={:?} reversed={}", rows, cols, cells, rev), || {
+                    // column scaled
+                    let mut t: Vec<(usize, usize, f64)> = cells.iter().map(|&(i, j)| (i, j, k(i, j) as f64 * 2f64.powi(exps[j % 6]))).collect();
+                    if rev {
+                        t.reverse();
+                    }
+                    let a = Sparse::<f64>::from_triplets(rows, cols, &mut t);
+                    let y: Vec<i64> = (0..rows).map(|i| [2, -1, 3, 1, -2][i % 5]).collect();
+                    let yv = ohsl::Vector::create(y.iter().map(|v| *v as f64).collect());
+                    let aty = a.transpose_multiply(&yv);
+                    let aty2 = a.transpose().multiply(&yv);
+                    ensure!(aty.size() == cols && aty2.size() == cols, "size of A^T y");
+                    for j in 0..cols {
+                        let e: i64 = cells.iter().filter(|c| c.1 == j).map(|&(i, _)| k(i, j) * y[i]).sum();
+                        let want = e as f64 * 2f64.powi(exps[j % 6]);
+                        ensure!(aty[j] == want && aty2[j] == want, "column-scaled A: (A^T y)[{}] = {:e} (transpose().multiply: {:e}), exact {:e}", j, aty[j], aty2[j], want);
+                    }
+                    // row scaled
+                    let mut t: Vec<(usize, usize, f64)> = cells.iter().map(|&(i, j)| (i, j, k(i, j) as f64 * 2f64.powi(exps[i % 6]))).collect();
+                    if rev {
+                        t.reverse();
+                    }
+                    let a = Sparse::<f64>::from_triplets(rows, cols, &mut t);
+                    let x: Vec<i64> = (0..cols).map(|j| [1, -3, 2, -1, 4][j % 5]).collect();
+                    let xv = ohsl::Vector::create(x.iter().map(|v| *v as f64).collect());
+                    let ax = a.multiply(&xv);
+                    let ax2 = a.transpose().transpose_multiply(&xv);
+                    ensure!(ax.size() == rows && ax2.size() == rows, "size of A x");
+                    for i in 0..rows {
+                        let e: i64 = cells.iter().filter(|c| c.0 == i).map(|&(_, j)| k(i, j) * x[j]).sum();
+                        let want = e as f64 * 2f64.powi(exps[i % 6]);
+                        ensure!(ax[i] == want && ax2[i] == want, "row-scaled A: (A x)[{}] = {:e} (transpose().transpose_multiply: {:e}), exact {:e}", i, ax[i], ax2[i], want);
+                    }
+                    Ok(())
+                });
+            }
+        },
+    );
+}
+
 fn family_cells(rows: usize, cols: usize, f: usize) -> Vec<(usize, usize)> {
     let mut v = vec![];
     for i in 0..rows {
@@ -101,6 +159,9 @@ fn main() {
                 shape_space(&ctx, r, c);
             }
         }
+    }
+    for (r, c) in [(2usize, 2usize), (3, 3), (4, 3), (2, 6), (5, 2)] {
+        scaled_space(&ctx, r, c);
     }
     let mut cases = vec![];
     for r in 1..=10usize {
